@@ -546,6 +546,35 @@ func (e *engine) doStep(st step) {
 		}
 		p := e.prim
 		ppos := w.pos(p)
+		if st.G.Intr {
+			// the requester gives the request up (FUSE interrupt, time-out on its side) while the primary is inside
+			// its grant-time recovery, i.e. after it took the write lock and before it answers; then it asks again
+			// through the same handle (the same lock id), as the lock file's handler does after EINTR
+			ctx0, cancel0 := context.WithCancel(context.Background())
+			prevHook := w.n[p].OS.Before
+			var once sync.Once
+			w.n[p].OS.Before = func(ev sim.OSEvent) error {
+				if ev.Label == "CHECKPOINT:DB" {
+					once.Do(func() {
+						cancel0()
+						time.Sleep(200 * time.Millisecond) // the cancellation reaches the primary's handler
+					})
+				}
+				if prevHook != nil {
+					return prevHook(ev)
+				}
+				return nil
+			}
+			var err0 error
+			pn0, to0 := bounded("LockWait(abandoned)", w.o.AcquireTO+20*time.Second, func() { err0 = e.hh.lockWait(ctx0) })
+			cancel0()
+			w.n[p].OS.Before = prevHook
+			if e.callTrouble("LockWait (abandoned)", pn0, to0) {
+				return
+			}
+			e.res.Classes[fmt.Sprintf("Acquire:abandoned-first-attempt-error=%v", err0 != nil)]++
+			time.Sleep(50 * time.Millisecond)
+		}
 		wasHeld := e.handleID != 0 && e.held[p] == e.handleID
 		var err error
 		ctx, cancel := context.WithTimeout(context.Background(), w.o.AcquireTO+15*time.Second)
@@ -1609,6 +1638,9 @@ func directed() []script {
 			mk("Acquire", none), mk("RDie", gArgs{Kind: "other-pages"}), mk("Release", none), mk("LWBegin", gArgs{}), mk("LWCommit", gArgs{})}},
 		{NoModel: true, Src: "directed/holder-commits-then-its-writer-dies-then-release", H: []step{
 			mk("Acquire", none), mk("RTx", none), mk("RDie", gArgs{Kind: "other-pages"}), mk("Release", none), mk("LWBegin", gArgs{}), mk("LWCommit", gArgs{})}},
+		// the acquire request is given up by the requester inside the primary's grant and repeated with the same id
+		{NoModel: true, Src: "directed/acquire-abandoned-then-repeated", H: []step{
+			mk("Acquire", gArgs{F: "none", Intr: true}), mk("LWBegin", gArgs{}), mk("RTx", none), mk("LWBegin", gArgs{}), mk("Release", none), mk("LWBegin", gArgs{}), mk("LWCommit", gArgs{})}},
 		// the primary's application unlinks the database while the replica holds the halt lock
 		{NoModel: true, Src: "directed/local-drop-during-halt", H: []step{
 			mk("Acquire", none), mk("RTx", none), mk("LDrop", gArgs{})}},
